@@ -12,6 +12,7 @@ import (
 	"encoding/json"
 	"fmt"
 	"sort"
+	"strings"
 	"sync/atomic"
 	"time"
 
@@ -50,6 +51,7 @@ type e2eOp struct {
 	K     int      `json:"k,omitempty"`
 	Hex   string   `json:"hex,omitempty"`
 	Rev   bool     `json:"rev,omitempty"` // gossip: deliver the pending broadcasts in reverse order
+	RC    string   `json:"rc,omitempty"`  // raceconnect: the connection whose DISCONNECT is processed inside the new connection's setup
 }
 type e2eInput struct {
 	Nodes int     `json:"nodes"`
@@ -235,6 +237,7 @@ func (e2eFamily) Exec(id int, raw json.RawMessage) Case {
 	nPub, nConn := 0, 0
 	tags := map[string]bool{}
 
+	var lastRaw []string // the observation terms of the last collect, unsorted by kind
 	collect := func(acting string, withDeadline bool) (string, []string) {
 		var ts []string
 		var hs []string
@@ -300,6 +303,7 @@ func (e2eFamily) Exec(id int, raw json.RawMessage) Case {
 			hs = append(hs, "call "+cc)
 		}
 		sort.Strings(ts)
+		lastRaw = ts
 		return cqList(ts), hs
 	}
 	settle := func(expectAckOn *e2eClient) string {
@@ -386,6 +390,65 @@ func (e2eFamily) Exec(id int, raw json.RawMessage) Case {
 			syncMsg = settle(nil)
 			withDl = true
 			opT = fmt.Sprintf("EConnect %s %s %s %s %s %s %s %s", cqNat(o.N), cqStr(o.C), cqStr(o.CID), cqStr(o.User), cqStr(o.Pass), cqZ(int64(ka)), cqOptPubE(o.Will), cqZ(clk))
+		case "raceconnect":
+			// C12 under the one interleaving that matters inside setup: the session that owns the client
+			// identifier ends (its DISCONNECT is processed to completion) after setup has looked it up and
+			// before setup removes it. Whatever the order, the outcome must be that of "DISCONNECT, then
+			// CONNECT": the new session is established. Reported as those two steps, the observations on
+			// the old connection going to the first.
+			old := clients[o.RC]
+			if old == nil {
+				panic("raceconnect on unknown connection " + o.RC)
+			}
+			nConn++
+			k = &e2eClient{name: o.C, node: o.N, conn: newScriptConn(), mids: map[string][]int{}}
+			clients[o.C] = k
+			order = append(order, o.C)
+			ka := o.KA
+			if ka == 0 {
+				ka = 60
+			}
+			var fired int32
+			ending := func() {
+				atomic.StoreInt32(&fired, 1)
+				old.conn.Feed([]byte{0xe0, 0})
+				old.conn.WaitClosed(cl.wait())
+			}
+			node.race.arm(ending)
+			go node.mgr.Setup(cl.ctx, transport.Metadata{Name: "script", Channel: k.conn})
+			k.conn.Feed(encConnect(o.CID, o.User, o.Pass, ka, o.Will, true))
+			if !k.conn.WaitOutCount(1, cl.wait()) {
+				tags["no-connack"] = true
+			}
+			k.conn.WaitIdle(cl.wait())
+			if f := node.race.take(); f != nil {
+				// setup never asked who owns the identifier: the old session ends afterwards
+				tags["race-not-reached"] = true
+				f()
+			}
+			syncMsg = settle(nil)
+			node.drain()
+			_, hs := collect(o.C, true)
+			var first, second []string
+			mark := " " + cqStr(o.RC)
+			for _, t := range lastRaw {
+				if strings.HasPrefix(t, "Out"+mark+" ") || strings.HasPrefix(t, "Closed"+mark) || strings.HasPrefix(t, "Garbage"+mark) {
+					first = append(first, t)
+				} else {
+					second = append(second, t)
+				}
+			}
+			if syncMsg != "" {
+				tags["sync-timeout"] = true
+				hs = append(hs, syncMsg)
+			}
+			tags["raceconnect"] = true
+			tDisc := fmt.Sprintf("(EDisconnect %s %s, %s)", cqStr(o.RC), cqZ(clk), cqList(first))
+			tConn := fmt.Sprintf("(EConnect %s %s %s %s %s %s %s %s, %s)", cqNat(o.N), cqStr(o.C), cqStr(o.CID), cqStr(o.User), cqStr(o.Pass), cqZ(int64(ka)), cqOptPubE(o.Will), cqZ(clk), cqList(second))
+			if atomic.LoadInt32(&fired) == 1 && !tags["race-not-reached"] {
+				return tDisc + "; " + tConn, hs
+			}
+			return tConn + "; " + tDisc, hs
 		case "send":
 			if k == nil {
 				panic("send on unknown connection " + o.C)
